@@ -1124,6 +1124,14 @@ def replay_fill_witness():
         chk.violation("witness:nonzero-fill", "the witness of hmc_eq_fmc_needs_zero_fill does not behave on the code as in the model",
                       dict(theorem_or_correspondence="hmc_eq_fmc_needs_zero_fill", N_times_image=res, model=dict(hmc=2.0, fmc=3.0)),
                       failing_input_found=False)
+    if abs(res["hmc"] - res["fmc"]) > 1e-12:
+        # the property as stated (no condition on the fill value) fails on this concrete input:
+        # a genuine deviation, recorded in known_findings.txt under this key
+        chk.violation("hmc-fmc:nonzero-fill",
+                      "HMC image x N_hmc != FMC image x N_fmc on symmetric data when a lookup leaves the time window and the fill value is non-zero",
+                      dict(elements_x=[0.0, 5.0], grid_point=[0.0, 0.0, 0.0], velocity=1.0, samples=2, dt=1.0, t0=0.0,
+                           data="zeros", interpolation="linear", fillvalue=1.0, N_times_image=res,
+                           theorem="hmc_eq_fmc_needs_zero_fill (Props/C12.v)"), failing_input_found=True)
     return res
 
 
